@@ -18,35 +18,46 @@ func vHandleState(c *ShipConnection, timeout bool, message []byte) {
 	}
 }
 
-// H_C14_Timer: a symbolic program of arm / stop operations, all performed "well before expiry"
-// (no timer may elapse until the program is done and every goroutine is parked), then time passes.
-// A timeout may be delivered only by the most recently armed timer and only if it was not stopped.
+// H_C14_Timer: a symbolic program of arm(short) / arm(long) / stop operations, all performed "well before expiry"
+// (no timer may elapse until the program is done and every goroutine is parked). Then time advances to the short
+// deadline, then to the long one. A timeout may be delivered only by the most recently armed timer, only if it was
+// not stopped, and only at that timer's own deadline.
 func c14Timer(nops int) {
 	e := newEnv(ShipRoleServer, "")
 	c := e.c
 	c14Delivered = 0
 	zzvrt.SetTimers(false)
-	armed := false
-	arms := 0
+	short, long := 10*time.Second, 60*time.Second
+	if !zzvrt.Symbolic() {
+		short, long = 40*time.Millisecond, 400*time.Millisecond // native replay: real, short timers
+	}
+	armed := 0 // 0 none, 1 short, 2 long
 	for i := 0; i < nops; i++ {
-		if zzvrt.Choice("op", 2) == 0 {
-			d := 10 * time.Second
-			if !zzvrt.Symbolic() {
-				d = 40 * time.Millisecond // native replay: a real, short timer
-			}
-			c.setHandshakeTimer(timeoutTimerTypeWaitForReady, d)
-			armed = true
-			arms++
-		} else {
+		switch zzvrt.Choice("op", 3) {
+		case 0:
+			c.setHandshakeTimer(timeoutTimerTypeWaitForReady, short)
+			armed = 1
+		case 1:
+			c.setHandshakeTimer(timeoutTimerTypeWaitForReady, long)
+			armed = 2
+		case 2:
 			c.stopHandshakeTimer()
-			armed = false
+			armed = 0
 		}
 	}
 	zzvrt.WaitQuiescent()
-	zzvrt.SetTimers(true)
+	zzvrt.FireTimersUpTo(short)
+	zzvrt.WaitQuiescent()
+	wantEarly := 0
+	if armed == 1 {
+		wantEarly = 1
+	}
+	zzvrt.Assert(c14Delivered <= wantEarly, "C14.stopped-or-replaced-timer-fired")
+	zzvrt.Assert(c14Delivered >= wantEarly, "C14.armed-timer-did-not-fire")
+	zzvrt.FireTimersUpTo(long)
 	zzvrt.WaitQuiescent()
 	want := 0
-	if armed {
+	if armed != 0 {
 		want = 1
 	}
 	zzvrt.Assert(c14Delivered <= want, "C14.stopped-or-replaced-timer-fired")
